@@ -299,6 +299,13 @@ func (r *rewriter) run() {
 	// imports
 	for _, is := range r.file.Imports {
 		p, _ := strconv.Unquote(is.Path.Value)
+		if p == "net" && r.pkg.Path() == modPath+"/transport/tcp" {
+			// the TCP wrapper runs over the in-memory network of the harness
+			is.Path.Value = strconv.Quote(modPath + "/vh/vnet")
+			is.Path.ValuePos = token.NoPos
+			is.EndPos = token.NoPos
+			continue
+		}
 		if np, ok := importMap[p]; ok {
 			is.Path.Value = strconv.Quote(np)
 			is.Path.ValuePos = token.NoPos
